@@ -14,5 +14,3 @@ mod build;
 mod c05;
 #[cfg(kani)]
 mod c31;
-#[cfg(kani)]
-mod c31p;
